@@ -1029,6 +1029,44 @@ def gen_sequence(rng, n_ops, flush_every, epr=True, max_depth=4):
     return renumber_arrays(prog)
 
 
+def gen_loop_carried(rng):
+    """register outcomes carried across iterations of an open loop: an outer foreach/enumerate over a
+    0/1 selector array (first entry 1, so that the register measurement is reached); its body has array
+    measurements (directly or in an inner loop that closes) and, under `if selector == 1`, a measurement
+    kept in a register; the register is used after the loop.  A register handed out while an enclosing
+    loop is still open must survive the later iterations' scratch use.  -> (prog, script)"""
+    n_sel = rng.randint(2, 4)
+    sel = [1] + [rng.randint(0, 1) for _ in range(n_sel - 1)]
+    if all(sel):
+        sel[-1] = 0
+    n_in = rng.randint(1, 3)
+    prog = [["newarr", 0, n_in, None], ["newarr", 1, n_sel, sel], ["newarr", 2, 2, [0, 0]]]
+    inner_meas = [["newq", 0], ["measfut", 0, 0, 0, ["v", 1]]]
+    shape = rng.choice(["inner-loop", "inner-loop", "direct", "both"])
+    body = []
+    if shape in ("inner-loop", "both"):
+        body.append(["loop", 0, 1, 0, n_in, 1, inner_meas, None])
+    if shape in ("direct", "both"):
+        body += [["newq", 1], ["measfut", 1, 0, 0, ["c", rng.randrange(n_in)]]]
+    kept = [["newq", 2]]
+    if rng.random() < 0.5:
+        kept.append(["gate", rng.choice(GATES1), 2])
+    kept.append(["measreg", 2, 0, 0])
+    cond = ["if", "eq", 0, ["fut", 1, ["v", 0]], ["int", 1], kept]
+    if rng.random() < 0.5:
+        body.append(cond)
+    else:
+        body.insert(0, cond)
+    prog.append(["foreach", rng.randint(0, 1), 0, 1, body])
+    prog.append(["futadd", 2, ["c", 0], ["reg", 0], None])
+    if rng.random() < 0.5:
+        prog.append(["if", "eq", rng.randint(0, 1), ["reg", 0], ["int", 1], [["futadd", 2, ["c", 1], ["int", 3], None]]])
+    prog.append(["flush"])
+    per_iter = (n_in if shape in ("inner-loop", "both") else 0) + (1 if shape in ("direct", "both") else 0)
+    n_meas = sum(per_iter + (1 if v == 1 else 0) for v in sel)
+    return prog, [rng.randint(0, 1) for _ in range(n_meas)]
+
+
 def gen_handover(rng):
     """register outcomes handed from one subroutine to later ones: measurements into registers in
     every block, later blocks use outcomes of earlier blocks (and their own) as condition and add
